@@ -28,14 +28,19 @@ func vpSymInt(tag string, sym bool, fixed int) int {
 // self-consistent).
 func vpRecord(tag string, N, txt, ints, blocks int) *BED {
 	b := &BED{N: N}
-	b.Chrom = vpText(tag+"chrom", txt)
+	b.Chrom = vpText(tag+"chrom", min(txt, 2))
 	if len(b.Chrom) > 0 {
 		vpAssume(b.Chrom[0] != '#')
 	}
 	b.ChromStart = vpSymInt(tag+"start", ints&1 != 0, 10)
 	b.ChromEnd = vpSymInt(tag+"end", ints&2 != 0, 20)
 	if N > 3 {
-		b.Name = vpText(tag+"name", txt)
+		if txt >= 1000 {
+			// a long field: the line exceeds bufio's 4096-byte buffer
+			b.Name = string(vpSparse(tag+"name", txt, func(c byte) bool { return c != '\t' && c != '\n' && c != '\r' }))
+		} else {
+			b.Name = vpText(tag+"name", txt)
+		}
 	}
 	if N > 4 {
 		b.Score = vpSymInt(tag+"score", ints&4 != 0, 150)
